@@ -8,6 +8,7 @@ import (
 	"fmt"
 	"sort"
 
+	"github.com/janelia-flyem/dvid/datatype/common/labels"
 	"pgregory.net/rapid"
 
 	"verif/model"
@@ -320,4 +321,64 @@ func (rs RunSpec) Build(d model.Dims, arr []uint64) []model.Run {
 		return model.SanitizeRuns(d, out)
 	}
 	return nil
+}
+
+// PermuteTable returns the same block with its block-level label table reordered (order derived from
+// seed) and the sub-block indices remapped.  MakeBlock fills the table in Go map iteration order, i.e.
+// randomly; the format does not prescribe an order, so this is the same block content, but it makes
+// everything that depends on table positions (duplicate entries after ReplaceLabel, "last matching
+// entry wins" loops) reproducible.  The result is produced by UnmarshalBinary of a serialisation
+// written here from the documented layout.
+func PermuteTable(b *labels.Block, seed uint64) (*labels.Block, error) {
+	n := len(b.Labels)
+	if n < 2 {
+		return b, nil
+	}
+	order := make([]int, n) // order[newPos] = oldPos
+	for i := range order {
+		order[i] = i
+	}
+	key := func(old int) uint64 {
+		x := b.Labels[old]*0x9E3779B97F4A7C15 ^ seed
+		x ^= x >> 29
+		x *= 0xBF58476D1CE4E5B9
+		x ^= x >> 32
+		return x
+	}
+	sort.Slice(order, func(i, j int) bool {
+		ki, kj := key(order[i]), key(order[j])
+		if ki != kj {
+			return ki < kj
+		}
+		return b.Labels[order[i]] < b.Labels[order[j]]
+	})
+	newPos := make([]uint32, n)
+	for np, old := range order {
+		newPos[old] = uint32(np)
+	}
+	buf := make([]byte, 0, 16+n*8+len(b.NumSBLabels)*2+len(b.SBIndices)*4+len(b.SBValues))
+	le := func(v uint64, nb int) {
+		for i := 0; i < nb; i++ {
+			buf = append(buf, byte(v>>(8*uint(i))))
+		}
+	}
+	le(uint64(b.Size[0]/8), 4)
+	le(uint64(b.Size[1]/8), 4)
+	le(uint64(b.Size[2]/8), 4)
+	le(uint64(n), 4)
+	for _, old := range order {
+		le(b.Labels[old], 8)
+	}
+	for _, v := range b.NumSBLabels {
+		le(uint64(v), 2)
+	}
+	for _, v := range b.SBIndices {
+		le(uint64(newPos[v]), 4)
+	}
+	buf = append(buf, b.SBValues...)
+	nb := new(labels.Block)
+	if err := nb.UnmarshalBinary(buf); err != nil {
+		return nil, err
+	}
+	return nb, nil
 }
